@@ -520,6 +520,17 @@ func generate(c *lib.Ctx, rng *rand.Rand) []c17in {
 			add(in)
 		}
 	}
+	// two consecutive master segments of duration 0 (empty trun): receivedSegData divides by masterSegDuration
+	for _, keys := range [][]string{{"v500"}, {"v500", "a128"}} {
+		tr := tracksOf(keys...)
+		in := c17in{Kind: 3, W: 30, Tracks: tr, Gen: "regression-zero-duration"}
+		for i := range tr {
+			in.Ops = append(in.Ops, c17op{K: "init", Name: i})
+		}
+		in.Ops = append(in.Ops, c17op{K: "recv", Name: 0, Seq: 1, Dts: 0, Dur: 0}, c17op{K: "recv", Name: 0, Seq: 2, Dts: 0, Dur: 0},
+			c17op{K: "recv", Name: 0, Seq: 3, Dts: 0, Dur: 0})
+		add(in)
+	}
 	// long runs: tracks at different speeds, gaps, duplicates, jumps, changing durations, late tracks
 	for i := 0; i < 260*mult; i++ {
 		T := 2 + rng.Intn(2)
